@@ -91,6 +91,10 @@ pub struct RecCase {
   /// an honest group to mix in: (t, count)
   pub honest_group: Option<(u32, u8)>,
   pub honest_first: bool,
+  /// many distinct copies of one generated share: (which share, size selector); the copies get
+  /// x = 1, 2, 3, ... and a threshold word they reach
+  #[serde(default)]
+  pub many: Option<(u16, u8)>,
 }
 
 fn rec_strat(_t: Tier) -> BoxedStrategy<RecCase> {
@@ -101,8 +105,10 @@ fn rec_strat(_t: Tier) -> BoxedStrategy<RecCase> {
     proptest::option::weighted(0.5, prop_oneof![Just(0u32), Just(1u32), Just(2u32), Just(3u32), Just(u32::MAX), Just(1u32 << 31)]),
     proptest::option::weighted(0.3, (1u32..5, 1u8..6)),
     any::<bool>(),
+    proptest::option::weighted(0.15, (any::<u16>(), 0u8..9)),
   )
-    .prop_map(|(shares, same_x, special_x, force_threshold, honest_group, honest_first)| RecCase {
+    .prop_map(|(shares, same_x, special_x, force_threshold, honest_group, honest_first, many)| RecCase {
+      many,
       shares,
       same_x,
       special_x,
@@ -150,6 +156,25 @@ fn rec_oracle(c: &RecCase, st: &mut Stats) -> Result<(), String> {
   if !c.special_x.is_empty() {
     st.class("special-x");
   }
+  // a large collection of degenerate shares that reaches its own (large) threshold
+  if let (Some((which, size)), false) = (c.many, enc.is_empty()) {
+    const SIZES: [usize; 9] = [31, 32, 33, 63, 64, 65, 128, 129, 257];
+    let n = SIZES[size as usize % SIZES.len()];
+    let template = enc[idx(which, enc.len())].clone();
+    if let Some(f) = layout::share_fields(&template) {
+      if f.s.len() >= 24 {
+        for k in 0..n {
+          let mut e = template.clone();
+          e[f.x()].copy_from_slice(&crate::bigmodel::le24(&num_bigint::BigUint::from(k as u64 + 1)));
+          // thresholds n, n-1 and a few below: reached by the copies
+          let t = [n, n - 1, 32.min(n)][(size as usize / 3) % 3].max(1) as u32;
+          e[..4].copy_from_slice(&t.to_le_bytes());
+          enc.push(e);
+        }
+        st.class(&format!("many-copies-of-one-share:{}{}", if n >= 128 { ">=128" } else if n >= 63 { "63-65" } else { "31-33" }, if f.y_count() == 0 { ",no-y" } else { "" }));
+      }
+    }
+  }
   if let Some(t) = c.force_threshold {
     for e in enc.iter_mut() {
       if e.len() >= 4 {
@@ -190,7 +215,7 @@ fn rec_oracle(c: &RecCase, st: &mut Stats) -> Result<(), String> {
     .iter()
     .filter_map(|e| layout::share_fields(e).and_then(|f| star_sharks::Share::try_from(&e[f.s]).ok()))
     .collect();
-  for t in [0u32, 1, 2, 3, inner.len() as u32, u32::MAX] {
+  for t in [0u32, 1, 2, 3, 32, 33, inner.len() as u32, (inner.len() as u32).saturating_sub(1), u32::MAX] {
     guard("Sharks::recover", || format!("t={t} {}", desc()), || star_sharks::Sharks(t).recover(&inner).is_ok())?;
     st.evals(1);
   }
